@@ -32,6 +32,10 @@ claim("C07", "static analysis: range-guard dominance with linear-form matching o
       "Decides that every value the compiler writes into a fixed-width operand or prototype field has passed a raising range check that fits the field, that multi-word groups are skipped by the peephole pass exactly where the VM consumes trailing words, that the code ends in a return and the line table is as long as the code. It does not decide register-operand bounds (post-hoc high-water scan), label definedness or jump-target alignment.",
       BASE + "codeStore.LastPC() is non-decreasing while one statement is compiled.", "DESIGN.md §3 C07")
 
+claim("C11", "static analysis: dominance and cycle analysis on the pruned SSA CFG (dispatch only on the default arm of a non-blocking select on ctx.Done(), every loop cycle passes the poll, Done arm raises), who-may-call/who-may-index ownership (jumpTable, mainLoop field), paired-store rule for ctx/mainLoop, path exploration restricted to ctx!=nil for blocking channel operations",
+      "Decides that no instruction is dispatched without a context poll on the loop SetContext installs, that byte-code is entered only through the per-state loop selection, that coroutines inherit a child context, and that every blocking channel operation watches ctx.Done() whenever a context is attached. It does not decide promptness inside long-running host functions.",
+      BASE + "context.Context.Done() is closed when the context is done.", "DESIGN.md §3 C11")
+
 for pid in ["C%02d" % i for i in range(2, 21)]:
     if pid not in P:
         na(pid, "check not built yet in this session (planned rules: DESIGN.md §3 %s); not claimed until its rules run clean" % pid)
